@@ -24,17 +24,15 @@ func (d *c06Dev) ReadAt(p []byte, off int64) (int, error) {
 // c06ReadImage: a minimal plain ISO 9660 image (PVD, terminator, root directory with one file,
 // path tables; descriptors and records produced by the library's own encoders, geometry as
 // Finalize lays it out: root at block 18, L/M path tables at 19/20, file data at 21) placed
-// `start` bytes into the device. Every other byte of the device is arbitrary. Read(dev, 0,
+// `start` bytes into the device (file content arbitrary, rest of the device zero). Read(dev, 0,
 // start, 2048) must find the tree: block N of the file system is at start + N*2048.
 func c06ReadImage(start int64) {
 	vp.Unwind(64)
-	vp.AllocCap(300)
 	bs := int64(2048)
 	f := &FileSystem{blocksize: bs}
 	now := time.Date(2024, 2, 29, 23, 59, 58, 0, time.UTC)
 	fsize := uint32(5) // sizes are covered by the record codec harnesses; here: where the bytes come from
-	root0 := vp.U8("junk") // (one arbitrary input so that reachability witnesses are not empty)
-	_ = root0
+	content := vp.Bytes("content", 5)
 	mk := func(name string, loc, size uint32, dir, self, parent bool) *directoryEntry {
 		return &directoryEntry{location: loc, size: size, creation: c06Time(), isSubdirectory: dir, isSelf: self, isParent: parent,
 			volumeSequence: 1, filesystem: f, filename: name}
@@ -51,7 +49,6 @@ func c06ReadImage(start int64) {
 	pb := pvd.toBytes()
 	c06NullDates(pb)
 	mem := vpdev.NewMemDev("disk", start+64*bs)
-	mem.UF = true
 	dev := &c06Dev{MemDev: mem, sysStart: start}
 	put := func(block int64, data []byte) {
 		dev.Log = append(dev.Log, vpdev.WRec{Off: start + block*bs, Len: len(data), Data: data})
@@ -61,6 +58,7 @@ func c06ReadImage(start int64) {
 	put(18, p[0])
 	put(19, pt.toLBytes())
 	put(20, pt.toMBytes())
+	put(21, content)
 	dev.NoWrites = true
 	vp.Cover("image placed")
 	fs, err := Read(dev, 0, start, bs)
@@ -89,7 +87,7 @@ func c06ReadImage(start int64) {
 	vp.Assert(n >= 1, "file has data")
 	for i := 0; i < 8; i++ {
 		if i < n {
-			vp.AssertUnless("KF-C06-9", start != 0, buf[i] == dev.ByteAt(start+21*bs+int64(i)), "file bytes come from start + extent*blocksize")
+			vp.AssertUnless("KF-C06-9", start != 0, buf[i] == content[i], "file bytes come from start + extent*blocksize")
 		}
 	}
 	vp.Assert(int64(n) <= int64(fsize), "no more than the file size is delivered")
